@@ -4,13 +4,15 @@ import (
 	"fmt"
 	"strings"
 
+	"verif/fold"
+
 	"verif/sim"
 )
 
 var typeNames = []string{"INTEGER", "TEXT", "", "INT", "REAL", "BLOB", "NUMERIC", "integer", "VARCHAR(10)", "DECIMAL(10,5)", "BIGINT", "Integer", "CHAR", "DOUBLE", "FLOAT", "BOOLEAN", "DATETIME", "CLOB", "DOUBLE PRECISION", "UNSIGNED BIG INT"}
 
 var plainColNames = []string{"a", "b", "c", "d", "e", "f", "g", "h", "k", "v", "w", "x", "y", "z", "name", "val", "id", "n", "t", "data"}
-var oddColNames = []string{"rowid", "oid", "_rowid_", "é", "éa", "ünï", "select", "key", "my col", "A", "Col", "index", "x y", "q\"q", "日本", "_", "a1", "desc", "replace", "ROWID", "a`b", "k`1", "br]ck", "q'q", "two  spaces", "ta\tb"}
+var oddColNames = []string{"rowid", "oid", "_rowid_", "é", "éa", "ünï", "É", "ÜNÏ", "ſ", "S", "K", "k", "select", "key", "my col", "A", "Col", "index", "x y", "q\"q", "日本", "_", "a1", "desc", "replace", "ROWID", "a`b", "k`1", "br]ck", "q'q", "two  spaces", "ta\tb"}
 
 var collations = []string{"BINARY", "NOCASE", "RTRIM", "nocase", "rtrim", "binary"}
 
@@ -23,17 +25,19 @@ func Ident(s *sim.Src, name string, fancy int) string {
 // SQLite matches names case-insensitively, so the reference may be spelled in
 // another letter case than the definition.
 func IdentRef(s *sim.Src, name string, fancy int) string {
-	ascii := true
-	for i := 0; i < len(name); i++ {
-		if name[i] >= 0x80 {
-			ascii = false
-		}
-	}
-	// (ASCII names only: SQLite folds A-Z only, sqlittle folds with Unicode rules, so
-	// "ÜNÏ" names the column ünï for sqlittle but not for SQLite - observed, see DESIGN 14.4)
-	if ascii && fancy > 0 && s.Chance(1, 6, "refcase") {
+	if fancy > 0 && s.Chance(1, 6, "refcase") {
+		// SQLite folds A-Z only: an ASCII-case variant still names the column ...
 		if s.Chance(1, 2, "refupper") {
-			name = strings.ToUpper(name)
+			name = fold.Upper(name)
+		} else {
+			name = fold.Lower(name)
+		}
+	} else if fancy > 0 && !fold.IsASCII(name) && s.Chance(1, 8, "refunicase") {
+		// ... a variant in the case of a non-ASCII letter does NOT (for SQLite it is an
+		// unknown column: the statement fails, or - double-quoted inside CREATE INDEX -
+		// becomes a string literal, i.e. an expression index)
+		if u := strings.ToUpper(name); u != name {
+			name = u
 		} else {
 			name = strings.ToLower(name)
 		}
@@ -71,7 +75,7 @@ func isBare(name string) bool {
 	if name == "" {
 		return false
 	}
-	if reserved[strings.ToLower(name)] {
+	if reserved[fold.Lower(name)] {
 		return false
 	}
 	for i, r := range name {
@@ -154,10 +158,10 @@ func CreateTable(s *sim.Src, name string, fancy int, wantWithoutRowid bool, othe
 		} else {
 			n = fmt.Sprintf("c%d", i)
 		}
-		for used[strings.ToLower(n)] {
+		for used[fold.Lower(n)] {
 			n = fmt.Sprintf("%s%d", n, i)
 		}
-		used[strings.ToLower(n)] = true
+		used[fold.Lower(n)] = true
 		tw := []int{8, 8, 3, 3, 3, 3, 2, 2, 1, 1, 1, 1, 1, 1, 1, 1, 1, 1, 0, 0}
 		if exotic {
 			tw[18], tw[19] = 3, 3
@@ -172,7 +176,12 @@ func CreateTable(s *sim.Src, name string, fancy int, wantWithoutRowid bool, othe
 	}
 	pkCol := s.Draw(len(cols), "pkcol")
 	if pkPlan == 1 && s.Chance(1, 2, "intpk") {
-		cols[pkCol].typ = []string{"INTEGER", "INTEGER", "integer", "INT", "Integer"}[s.Draw(5, "intpkty")]
+		n := 7
+		if fancy >= 9 {
+			// type arguments: only the schema check (C10) builds these, see known_findings.json
+			n = 10
+		}
+		cols[pkCol].typ = []string{"INTEGER", "INTEGER", "integer", "INT", "Integer", "INTEGER UNSIGNED", "\"INTEGER\"", "INTEGER(10)", "INTEGER (8)", "INTEGER(4,2)"}[s.Draw(n, "intpkty")]
 	}
 	var defs []string
 	var colNames []string
@@ -191,7 +200,7 @@ func CreateTable(s *sim.Src, name string, fancy int, wantWithoutRowid bool, othe
 			case 2:
 				pk += " DESC"
 			}
-			autoinc := !wantWithoutRowid && strings.EqualFold(c.typ, "INTEGER") && !strings.Contains(pk, "DESC") && s.Chance(1, 5, "autoinc")
+			autoinc := !wantWithoutRowid && fold.Equal(c.typ, "INTEGER") && !strings.Contains(pk, "DESC") && s.Chance(1, 5, "autoinc")
 			if exotic && s.Chance(1, 3, "pkconfl") {
 				pk += " ON CONFLICT REPLACE"
 			}
